@@ -91,6 +91,25 @@ def run(ctx, model):
         ctx.count("frames-checked", len(impl["frames"]))
         if i < 2:
             ctx.sample({"ops": [tr.op_sx(o)[:100] for o in ops], "frames": [f.hex()[:120] for f in impl["frames"][:4]]})
+    # ---- a target that refuses RegisterSession but leaves a value in the handle field of its refusal (a device is free to
+    # echo anything there): no later frame may carry that value as a session handle — it was never granted
+    import struct as _st
+    for i in range(ctx.budget(12, 120)):
+        scn, policy, generic = tr.gen_base(rng, policy=(False, True, True))
+        handle = rng.choice([0x1234ABCD, 1, 0xFFFFFFFF, 0x80000000, rng.getrandbits(32) or 7])
+
+        def flt(reply, handle=handle):
+            if len(reply) >= 24 and reply[:2] == b"\x65\x00" and _st.unpack_from("<I", reply, 8)[0] != 0:
+                out = bytearray(reply)
+                _st.pack_into("<I", out, 4, handle)
+                return bytes(out)
+            return reply
+        ops = [("open",)] + [tr.gen_gm(rng, connected=rng.random() < 0.3) for _ in range(rng.choice([1, 2]))] + [("close",), ("open",), ("listid",)]
+        path = rng.choice(["10.0.0.1", "10.0.0.1/bp/1"])
+        rnd = [bytes(rng.getrandbits(8) for _ in range(8)) for _ in range(8)]
+        impl = tr.run_case(ctx, model, tlines, tpend, "refused-register-with-handle", "C11", scn, path, rng.random() < 0.5, {}, rnd, ops,
+                           extra_case={"handle_in_the_refusal": handle}, reply_filter=flt)
+        ctx.count("frames-checked", len(impl["frames"]))
     tr.flush(ctx, model, tlines, tpend)
     # ---- a long connected history across the wrap of the sequence counter
     tr.run_c17(ctx, model, focus="C11")
